@@ -189,15 +189,27 @@ Theorem C10_entrypoints_wmd_get : forall pads i,
 Proof. exact entrypoints_wmd_get. Qed.
 Print Assumptions C10_entrypoints_wmd_get.
 
-(* categorical - PARTIAL: stated relative to parse_file on the canonical file, because the round-trip theorem of
-   C08 (cat_parse (readlines (cat_write i)) = Ok (sorted_view i)) was not finished when this package was built.
-   Composing the two gives "= Ok (ICat (CatIO.sorted_view i))".  cat_text_ok i: header values and names are
-   single-line without outer whitespace, every ballot has at least one category. *)
-Theorem C10_entrypoints_cat_partial : forall e dt f pads i,
+(* categorical (wf_cat: the well-formedness of C08, Proofs/CatIO.v): the instance that was written, ballots in
+   file order (CatIO.sorted_view, C08) *)
+Theorem C10_entrypoints_cat : forall e pads i,
+  Proofs.CatIO.wf_cat i -> wf_pad pads = true ->
+  parse_entry e CCat (lit "cat") (mkFlags false false) (restyle pads (cat_write i)) = Ok (ICat (CatIO.sorted_view i)).
+Proof. exact entrypoints_cat. Qed.
+Print Assumptions C10_entrypoints_cat.
+
+Theorem C10_entrypoints_cat_get : forall pads i,
+  Proofs.CatIO.wf_cat i -> wf_pad pads = true ->
+  get_parsed_instance_model (lit "cat") (mkFlags false false) (restyle pads (cat_write i)) = Ok (ICat (CatIO.sorted_view i)).
+Proof. exact entrypoints_cat_get. Qed.
+Print Assumptions C10_entrypoints_cat_get.
+
+(* any flags, and under the weaker hypothesis cat_text_ok (header values and names single-line without outer
+   whitespace, every ballot has at least one category): all entry points agree with parse_file on the canonical file *)
+Theorem C10_entrypoints_cat_flags : forall e dt f pads i,
   cat_text_ok i -> wf_pad pads = true ->
   parse_entry e CCat dt f (restyle pads (cat_write i)) = parse_file_model CCat dt f (cat_write i).
 Proof. exact entrypoints_cat_flags. Qed.
-Print Assumptions C10_entrypoints_cat_partial.
+Print Assumptions C10_entrypoints_cat_flags.
 
 (* ================================================================================================ *)
 (* header_only                                                                                      *)
@@ -235,6 +247,12 @@ Theorem C10_header_only_ord : forall e dt pads i,
   parse_entry e COrd dt (mkFlags false true) (restyle pads (ord_write i)) = Ok (header_of (IOrd (OrdIO.sorted_view i))).
 Proof. exact header_only_ord. Qed.
 Print Assumptions C10_header_only_ord.
+
+Theorem C10_header_only_cat : forall e pads i,
+  Proofs.CatIO.wf_cat i -> wf_pad pads = true ->
+  parse_entry e CCat (lit "cat") (mkFlags false true) (restyle pads (cat_write i)) = Ok (header_of (ICat (CatIO.sorted_view i))).
+Proof. exact header_only_cat. Qed.
+Print Assumptions C10_header_only_cat.
 
 Theorem C10_header_only_wmd : forall e pads i,
   Proofs.WmdIO.wf_tok i -> wf_pad pads = true ->
@@ -297,19 +315,34 @@ Definition ex_cat : cinst :=
           2 2 [(1, lit "yes"); (2, [])]
           [ [[1; 2]; [3]]; [[]; [1; 2; 3]] ] [ ([[1; 2]; [3]], 3); ([[]; [1; 2; 3]], 2) ].
 
-Example C10_example_cat : cat_text_ok ex_cat /\
-  parse_entry EUrl CCat (lit "cat") (mkFlags false false) (restyle ex_pads (cat_write ex_cat)) = Ok (ICat (CatIO.sorted_view ex_cat)) /\
-  parse_entry EStr CCat (lit "cat") (mkFlags false false) (restyle ex_pads (cat_write ex_cat)) = Ok (ICat (CatIO.sorted_view ex_cat)) /\
-  parse_file_model CCat (lit "cat") (mkFlags false false) (cat_write ex_cat) = Ok (ICat (CatIO.sorted_view ex_cat)).
+Example C10_example_cat_wf : Proofs.CatIO.wf_cat ex_cat.
 Proof.
-  split.
-  - unfold cat_text_ok, ex_cat. cbn [c_meta c_cat_names c_prefs alt_names]. split.
-    { unfold wf_fields, wf_field, wf_value. cbn [file_name title description data_type modification_type relates_to
-        related_files publication_date modification_date]. repeat split; vm_compute; reflexivity. }
-    split; [repeat constructor; vm_compute; reflexivity|]. split; [repeat constructor; vm_compute; reflexivity|].
-    repeat constructor; discriminate.
-  - repeat split; vm_compute; reflexivity.
+  constructor; unfold ex_cat; cbn [c_prefs c_num_categories c_mult c_meta c_cat_names alt_names data_type reserved].
+  - discriminate.
+  - discriminate.
+  - repeat constructor.
+  - repeat constructor; discriminate.
+  - reflexivity.
+  - repeat constructor; cbn; intuition discriminate.
+  - unfold wf_fields, wf_field, wf_value. cbn [file_name title description data_type modification_type relates_to
+      related_files publication_date modification_date]. repeat split; vm_compute; reflexivity.
+  - reflexivity.
+  - reflexivity.
+  - split; [repeat constructor; vm_compute; reflexivity|repeat constructor; cbn; intuition discriminate].
+  - split; [repeat constructor; vm_compute; reflexivity|repeat constructor; cbn; intuition discriminate].
 Qed.
+
+(* the categorical file has 20 lines; its two ballot lines get blanks at every token boundary, e.g. "3 :    { 1 ,   2 } ,   3" *)
+Definition ex_pads_cat : list linestyle :=
+  ex_pads ++ [ mkStyle [9] [0; 1; 2; 1; 1; 1; 1; 1; 1; 1; 1; 1; 1; 1; 1; 1]%nat [32] CR;
+               mkStyle [] [0; 2; 1; 1; 1; 1; 3; 1; 1; 1; 1; 1; 1; 1; 1; 1; 1; 1; 1]%nat [] CRLF ].
+
+Example C10_example_cat :
+  wf_pad ex_pads_cat = true /\
+  parse_entry EUrl CCat (lit "cat") (mkFlags false false) (restyle ex_pads_cat (cat_write ex_cat)) = Ok (ICat (CatIO.sorted_view ex_cat)) /\
+  parse_entry EStr CCat (lit "cat") (mkFlags false true) (restyle ex_pads_cat (cat_write ex_cat)) = Ok (header_of (ICat (CatIO.sorted_view ex_cat))) /\
+  lf_lines (restyle [mkStyle [] [0; 1; 2; 1; 1; 1; 1; 1; 1; 1; 1; 1; 1; 1; 1; 1]%nat [] LF] (lit "3: {1, 2}, 3" ++ nl)) = [lit "3 :    { 1 ,   2 } ,   3"].
+Proof. repeat split; vm_compute; reflexivity. Qed.
 
 Definition ex_wmd : twinst :=
   mkW (mkMeta (lit "g.wmd") (lit "T") [] (lit "wmd") [] [] [] [] [] 2 0 [(2, lit "b"); (1, [])] [])
